@@ -217,7 +217,8 @@ for _cls, _guard in (('Element', 'not is_varies_class(self)'), ('SupportComplexD
 
 contract('hl7apy.core:Element.is_z_element', sig={'self': 'Element'}, returns='bool',
          raises={}, raises_only=[], modifies=[], interface=True, verify=False, properties=['C04'],
-         notes='four pure one-line definitions (False / a name pattern test): assumed pure; which answer is given is not used')
+         notes='interface (pure, total): proved for the four definitions below (Element[impl], Segment, Field, Message); '
+               'Segment.is_z_element needs a named segment, which Segment.__init__ guarantees (it raises on name=None)')
 
 # ---- Field.add / Component.add: the interface contract of Element.add, now proved for these two overrides as well (they
 # only add a guard that raises MaxChildLimitReached before delegating to Element.add)
@@ -284,4 +285,77 @@ contract(
                'vars': {}}},
     exact_self=True,
     properties=['C03', 'C09'],
+)
+
+# ---- the Z-name predicates and the four is_z_element definitions (previously one assumed interface contract):
+# total (no exception on any str), pure (modifies=[]: validate() "is a pure observation", C04) and, where the engine's
+# string vocabulary reaches, the answer itself.
+contract('hl7apy.core:_valid_z_segment_name', sig={'name': 'str'}, returns='bool',
+         ensures=[('three_chars', 'implies(result, strlen(name) == 3)'),
+                  ('answer', 'result == (strlen(name) == 3 and substr(upper(name), 0, 1) == "Z")')],
+         raises={}, raises_only=[], modifies=[], properties=['C04', 'C03'])
+contract('hl7apy.core:_valid_z_field_name', sig={'name': 'str'}, returns='bool',
+         ensures=[('z_first', 'implies(result, char_at(name, 0) == "z" or char_at(name, 0) == "Z")'),
+                  ('min_len', 'implies(result, strlen(name) >= 5)')],
+         raises={}, raises_only=[], modifies=[], properties=['C04'])
+contract('hl7apy.core:_valid_z_message_name', sig={'name': 'str?'}, returns='bool',
+         ensures=[('none', 'implies(name is None, not result)'),
+                  ('shape', 'implies(result, strlen(name) >= 7 and strlen(name) <= 8 and char_at(name, 3) == "_")')],
+         raises={}, raises_only=[], modifies=[], properties=['C04', 'C15'])
+contract('hl7apy.core:Element.is_z_element[impl]', sig={'self': 'Element'}, returns='bool',
+         ensures=[('never', 'not result')], raises={}, raises_only=[], modifies=[], exact_self=True, properties=['C04'])
+contract('hl7apy.core:Segment.is_z_element', sig={'self': 'Segment'}, returns='bool', requires=['self.name is not None'],
+         ensures=[('answer', 'result == (strlen(self.name) == 3 and substr(upper(self.name), 0, 1) == "Z")')],
+         raises={}, raises_only=[], modifies=[], properties=['C04', 'C03'])
+contract('hl7apy.core:Field.is_z_element', sig={'self': 'Field'}, returns='bool',
+         ensures=[('unnamed', 'implies(self.name is None, not result)'),
+                  ('z_first', 'implies(result, char_at(self.name, 0) == "z" or char_at(self.name, 0) == "Z")')],
+         raises={}, raises_only=[], modifies=[], properties=['C04'])
+contract('hl7apy.core:Message.is_z_element', sig={'self': 'Message'}, returns='bool',
+         ensures=[('unnamed', 'implies(self.name is None, not result)'),
+                  ('shape', 'implies(result, strlen(self.name) >= 7 and char_at(self.name, 3) == "_")')],
+         raises={}, raises_only=[], modifies=[], properties=['C04', 'C15'])
+
+# C14 "in any letter case": the test an element applies to a name handed to it
+contract('hl7apy.core:Element.is_named', sig={'self': 'Element', 'name': 'str'}, returns='bool',
+         ensures=[('answer', 'result == ((self.name is not None and upper(name) == self.name) or '
+                             '(self.long_name is not None and upper(name) == self.long_name))')],
+         raises={}, raises_only=[], modifies=[], properties=['C14'])
+contract('hl7apy.core:Element._get_parent', sig={'self': 'Element'}, returns='Element?',
+         ensures=[('answer', 'result is self._parent')], raises={}, raises_only=[], modifies=[], properties=['C10'])
+contract('hl7apy.core:Element._get_traversal_parent', sig={'self': 'Element'}, returns='Element?',
+         ensures=[('answer', 'result is self._traversal_parent')], raises={}, raises_only=[], modifies=[], properties=['C10', 'C11'])
+
+def _all_cls_attrs():
+    from hl7apy import core
+    out = set()
+    for _n in ('Element', 'Field', 'Segment', 'Message', 'Component', 'SubComponent', 'Group'):
+        out |= set(getattr(core, _n).cls_attrs)
+    return sorted(out)
+
+
+_ALL_CLS_ATTRS = _all_cls_attrs()
+
+# del x.<name> for a name that is not one of the element's own attributes (C09 "deletion removes exactly the addressed
+# one", C14 "for reads, writes and deletes alike"): the first repetition child_at(children, name, 0) leaves the list
+contract(
+    'hl7apy.core:Element.__delattr__[child]',
+    sig={'self': 'Element', 'name': 'str'},
+    returns='none',
+    # not one of the element's own attribute names (the union of cls_attrs over the Element classes, read from the real
+    # classes when the contracts are loaded)
+    requires=['sep(self.children)', 'self.children.element is self'] + ['name != "%s"' % _a for _a in _ALL_CLS_ATTRS],
+    ensures=[
+        ('sep', 'sep(self.children)'),
+        ('first_repetition_removed',
+         'implies(old(child_at(self.children, name, 0)._traversal_parent) is not self, ' +
+         __import__('contracts.k2_elementlist', fromlist=['x']).removed_first_of(
+             'self.children.list', 'self.children.list', 'old(child_at(self.children, name, 0))') + ')'),
+    ],
+    raises={'ValueError': {}, 'ChildNotFound': {}, 'ChildNotValid': {},
+            'AttributeError': {'when': 'child_at(self.children, name, 0) is None',
+                               'ensures': [('unchanged', 'list_unchanged(self.children.list) and dict_unchanged(self.children.indexes)')]}},
+    raises_only=['ValueError', 'ChildNotFound', 'ChildNotValid', 'AttributeError'],
+    modifies=None,
+    properties=['C09', 'C12', 'C14'],
 )
